@@ -987,7 +987,7 @@ func c15Gen(tier string, rng *rand.Rand, emit func(string)) map[string]interface
 	}
 	ns := 0
 	for k := 0; k < rounds; k++ {
-		for _, comp := range []string{"handler", "actor", "bcq", "pool"} {
+		for _, comp := range []string{"handler", "actor", "bcq", "pool", "cor"} {
 			users := 1 + rng.Intn(8)
 			ops := 20 + rng.Intn(60)
 			seed := rng.Intn(1 << 30)
@@ -997,6 +997,9 @@ func c15Gen(tier string, rng *rand.Rand, emit func(string)) map[string]interface
 				e(fmt.Sprintf("stress %s users=%d ops=%d cap=%d seed=%d jitter=%d", comp, users, ops, []int{0, 1, 8}[rng.Intn(3)], seed, jit))
 			case "bcq":
 				e(fmt.Sprintf("stress bcq users=%d ops=%d c=%d b=%d seed=%d jitter=%d", users, ops, rng.Intn(4), rng.Intn(6), seed, jit))
+			case "cor":
+				// the target serves fewer requests than the callers make, so it always finishes under them
+				e(fmt.Sprintf("stress cor users=%d ops=%d serve=%d seed=%d jitter=%d", users, ops, rng.Intn(users*ops), seed, jit))
 			case "pool":
 				qclose := 1
 				if rng.Intn(4) == 0 {
